@@ -13,3 +13,5 @@ func TestC10(t *testing.T) { harness.Main(t, "C10", C10Workloads()) }
 func TestC03(t *testing.T) { harness.Main(t, "C03", C03Workloads()) }
 
 func TestC01(t *testing.T) { harness.Main(t, "C01", C01Workloads()) }
+
+func TestC04(t *testing.T) { harness.Main(t, "C04", C04Workloads()) }
